@@ -307,6 +307,17 @@ class GrammarEval:
             raise Unrecognised(f'conditional grammar construction `if {norm(t)}`', st)
         if isinstance(st, ast.Pass):
             return
+        if isinstance(st, ast.For) and not st.orelse:
+            seq = self.ev(st.iter, env, mod, self_cfg)
+            if not isinstance(seq, (tuple, list)):
+                raise Unrecognised(f'loop over `{norm(st.iter)[:50]}` (not a literal sequence) in a grammar definition', st)
+            if any(isinstance(x, (ast.Break, ast.Continue, ast.Return)) for b in st.body for x in ast.walk(b)):
+                raise Unrecognised('loop with break/continue/return in a grammar definition', st)
+            for item in list(seq):
+                self.bind(st.target, item, env, mod, st)
+                for b in st.body:
+                    self.exec_stmt(b, env, mod, self_cfg)
+            return
         raise Unrecognised(f'statement `{norm(st)[:60]}` in a grammar definition', st)
 
     def bind(self, tgt: ast.AST, v: Any, env, mod: Module, st):
@@ -320,7 +331,7 @@ class GrammarEval:
             if isinstance(v, G) and v.var is None:
                 v.var = 'self.' + tgt.attr
             return
-        if isinstance(tgt, (ast.Tuple, ast.List)) and isinstance(v, tuple) and len(v) == len(tgt.elts):
+        if isinstance(tgt, (ast.Tuple, ast.List)) and isinstance(v, (tuple, list)) and len(v) == len(tgt.elts):
             for t, x in zip(tgt.elts, v):
                 self.bind(t, x, env, mod, st)
             return
@@ -364,6 +375,8 @@ class GrammarEval:
                 return Opaque(f'self.{e.attr}')
             if isinstance(base, str):
                 return Opaque(f'str.{e.attr}')
+            if isinstance(base, list) and e.attr in ('append', 'extend', 'insert'):
+                return ('listmethod', base, e.attr)
             return Opaque(f'{norm(e)}')
         if isinstance(e, ast.BinOp):
             l = self.ev(e.left, env, mod, cfg)
@@ -395,8 +408,28 @@ class GrammarEval:
             if isinstance(t, bool):
                 return self.ev(e.body if t else e.orelse, env, mod, cfg)
             raise Unrecognised(f'conditional expression on `{norm(e.test)}`', e)
-        if isinstance(e, (ast.Tuple, ast.List)):
+        if isinstance(e, ast.Tuple):
             return tuple(self.ev(x, env, mod, cfg) for x in e.elts)
+        if isinstance(e, ast.List):
+            return [self.ev(x, env, mod, cfg) for x in e.elts]
+        if isinstance(e, (ast.ListComp, ast.GeneratorExp)) and len(e.generators) == 1 and not e.generators[0].is_async:
+            g = e.generators[0]
+            seq = self.ev(g.iter, env, mod, cfg)
+            if not isinstance(seq, (tuple, list)):
+                raise Unrecognised(f'comprehension over `{norm(g.iter)[:50]}` (not a literal sequence)', e)
+            out = []
+            for item in list(seq):
+                env2 = dict(env)
+                self.bind(g.target, item, env2, mod, e)
+                keep = True
+                for cond in g.ifs:
+                    v = self.ev(cond, env2, mod, cfg)
+                    if not isinstance(v, bool):
+                        raise Unrecognised(f'comprehension filter `{norm(cond)[:50]}`', e)
+                    keep = keep and v
+                if keep:
+                    out.append(self.ev(e.elt, env2, mod, cfg))
+            return out if isinstance(e, ast.ListComp) else tuple(out)
         if isinstance(e, ast.Dict):
             return Opaque('dict')
         if isinstance(e, ast.JoinedStr):
@@ -501,6 +534,18 @@ class GrammarEval:
             if 'name' not in kw:
                 return f.copy()
             return self.set_name(f, kw['name'], bool(kw.get('list_all_matches', False)), e)
+        if isinstance(f, tuple) and len(f) == 3 and f[0] == 'listmethod':
+            _, lst, meth = f
+            args = [self.ev(a, env, mod, cfg) for a in e.args]
+            if meth == 'append' and len(args) == 1:
+                lst.append(args[0])
+            elif meth == 'extend' and len(args) == 1 and isinstance(args[0], (list, tuple)):
+                lst.extend(args[0])
+            elif meth == 'insert' and len(args) == 2 and isinstance(args[0], int):
+                lst.insert(args[0], args[1])
+            else:
+                raise Unrecognised(f'list operation `{norm(e)[:60]}`', e)
+            return None
         if isinstance(f, GMethod):
             return self.method(f.recv, f.name, e, env, mod, cfg)
         if isinstance(f, PPRef):
@@ -682,7 +727,7 @@ class GrammarEval:
             if len(e.args) != 1:
                 raise Unrecognised(f'pyparsing.{name}() arguments', e)
             items = self.ev(e.args[0], env, mod, cfg)
-            if not isinstance(items, tuple):
+            if not isinstance(items, (tuple, list)):
                 raise Unrecognised(f'pyparsing.{name}() needs a literal list', e)
             kids = [self.as_g(x, e, m) for x in items]
             return self.mk({'And': 'and', 'MatchFirst': 'first', 'Or': 'or', 'Each': 'each'}[name], kids, None, e, m)
@@ -712,7 +757,7 @@ class GrammarEval:
             s = kw.get('strs')
             if isinstance(s, str):
                 alts = s.split()
-            elif isinstance(s, tuple) and all(isinstance(x, str) for x in s):
+            elif isinstance(s, (tuple, list)) and all(isinstance(x, str) for x in s):
                 alts = list(s)
             else:
                 raise Unrecognised('one_of() alternatives are not literal', e)
